@@ -24,3 +24,13 @@ func (v *VerifModule) Handle(cf *DataFile, req *bfe_basic.Request) (int, *bfe_ht
 	ret, resp := v.m.validateHandler(req)
 	return ret, resp, nil
 }
+
+// LoadFile runs the module's real reload entry point loadConfData (DataLoad) on a rule file.
+func (v *VerifModule) LoadFile(path string) error {
+	return v.m.loadConfData(map[string][]string{"path": {path}})
+}
+
+// Run runs validateHandler on req with whatever table is installed.
+func (v *VerifModule) Run(req *bfe_basic.Request) (int, *bfe_http.Response) {
+	return v.m.validateHandler(req)
+}
